@@ -274,7 +274,7 @@ class G:
 
     def mk_reduce_sum(self, T, d):
         self.use("reduce")
-        acc, it = self.fresh("p"), self.fresh("p")
+        acc, it = self.cbparams(2)
         f = ("func", [acc, it], ("bin", "+", ("sym", acc), ("sym", it)))
         return ("reduce", f, self.expr("int", d - 1), self.expr(("list", "int"), d - 1))
 
@@ -364,13 +364,13 @@ class G:
 
     def mk_mapstr(self, T, d):
         self.use("map-str")
-        p = self.fresh("p")
+        (p,) = self.cbparams(1)
         body = self.r.choice([("bin", "+", ("sym", p), ("sym", p)), ("sym", p), ("bin", "+", ("sym", p), ("str", "-"))])
         return ("map", ("func", [p], body), self.expr("str", d - 1))
 
     def mk_filterstr(self, T, d):
         self.use("filter-str")
-        p = self.fresh("p")
+        (p,) = self.cbparams(1)
         body = ("bin", "!=", ("sym", p), ("str", self.r.choice(["a", "b", " ", "o"])))
         return ("filter", ("func", [p], body), self.expr("str", d - 1))
 
@@ -466,27 +466,47 @@ class G:
             a = ("bin", "+", a, ("int", 1))
         return ("range", a, step, b)
 
+    def cbparams(self, n):
+        """n distinct callback parameter names: fresh ones, or (p=0.2 each) the name of an existing value binding,
+        which the parameter then shadows inside the callback only"""
+        out = []
+        cands = [nm for nm, t in self.scope if not (isinstance(t, tuple) and t[0] in ("func", "module"))]
+        for _ in range(n):
+            nm = None
+            if cands and self.r.random() < 0.2:
+                c = self.r.choice(cands)
+                if c not in out:
+                    nm = c
+                    self.use("callback-param-shadows")
+            out.append(nm or self.fresh("p"))
+        return out
+
+    def in_scope(self, params, fn):
+        saved = self.scope
+        names = set(n for n, _ in params)
+        self.scope = [(n, t) for n, t in saved if n not in names] + list(params)
+        try:
+            return fn()
+        finally:
+            self.scope = saved
+
     def mk_maplist(self, T, d):
         self.use("map-list")
-        p = self.fresh("p")
+        (p,) = self.cbparams(1)
         src = self.rand_simple()
         # body of type T[1] over a parameter of type src
-        self.scope.append((p, src))
-        body = self.expr(T[1], d - 1)
-        self.scope.pop()
+        body = self.in_scope([(p, src)], lambda: self.expr(T[1], d - 1))
         return ("map", ("func", [p], body), self.expr(("list", src), d - 1))
 
     def mk_filterlist(self, T, d):
         self.use("filter-list")
-        p = self.fresh("p")
-        self.scope.append((p, T[1]))
-        body = self.expr("bool", d - 1) if self.r.random() < 0.8 else self.r.choice([("null",), ("sym", p)])
-        self.scope.pop()
+        (p,) = self.cbparams(1)
+        body = self.in_scope([(p, T[1])], lambda: self.expr("bool", d - 1) if self.r.random() < 0.8 else self.r.choice([("null",), ("sym", p)]))
         return ("filter", ("func", [p], body), self.expr(T, d - 1))
 
     def mk_reduce_chars(self, T, d):
         self.use("reduce-str")
-        acc, it = self.fresh("p"), self.fresh("p")
+        acc, it = self.cbparams(2)
         f = ("func", [acc, it], ("bin", "+", ("sym", acc), ("list", [("sym", it)])))
         return ("reduce", f, ("list", []), self.expr("str", d - 1))
 
@@ -517,14 +537,14 @@ class G:
 
     def mk_filtertuple(self, T, d):
         self.use("filter-tuple")
-        k, v = self.fresh("p"), self.fresh("p")
+        k, v = self.cbparams(2)
         names = [n for n, _ in T[1]] or ["a"]
         body = self.r.choice([("bin", "!=", ("sym", k), ("str", "zz")), ("bool", True), ("bin", "in", ("sym", k), ("list", [("str", n) for n in names]))])
         return ("filter", ("func", [k, v], body), self.expr(T, d - 1))
 
     def mk_maptuple(self, T, d):
         self.use("map-tuple")
-        k, v = self.fresh("p"), self.fresh("p")
+        k, v = self.cbparams(2)
         body = ("list", [("sym", k), ("sym", v)])
         return ("map", ("func", [k, v], body), self.expr(T, d - 1))
 
